@@ -17,6 +17,7 @@ from functools import cmp_to_key
 from ufl.argument import Argument
 from ufl.coefficient import Coefficient
 from ufl.constant import Constant
+from ufl.constantvalue import Zero
 from ufl.core.multiindex import FixedIndex, MultiIndex
 from ufl.geometry import GeometricQuantity
 from ufl.variable import Label
@@ -53,6 +54,17 @@ def _cmp_multi_index(a, b):
     # (this does not mean equality, it could be e.g.
     # [i,0] vs [j,0] because the counts of i,j cannot be used)
     return 0
+
+
+def _cmp_zero(a, b):
+    """Cmp zero."""
+    # Careful not to depend on the free index numbers here, for the
+    # same reason as in _cmp_multi_index.
+    x = (a.ufl_shape, a.ufl_index_dimensions)
+    y = (b.ufl_shape, b.ufl_index_dimensions)
+    if x == y:
+        return 0
+    return -1 if x < y else 1
 
 
 def _cmp_label(a, b):
@@ -130,6 +142,7 @@ _terminal_cmps[Argument._ufl_typecode_] = _cmp_argument
 _terminal_cmps[Coefficient._ufl_typecode_] = _cmp_coefficient
 _terminal_cmps[Constant._ufl_typecode_] = _cmp_constant
 _terminal_cmps[Label._ufl_typecode_] = _cmp_label
+_terminal_cmps[Zero._ufl_typecode_] = _cmp_zero
 
 
 def cmp_expr(a, b):
